@@ -201,6 +201,10 @@ func unmarshalECKey(ecCRV elliptic.Curve, pubKey []byte) (string, []byte, []byte
 		// add compression byte for uncompressed key, comment of fingerprint.PubKeyFromDIDKey().
 		pubKey = append([]byte{4}, pubKey...)
 		xBig, yBig = elliptic.Unmarshal(ecCRV, pubKey)
+		if xBig == nil || yBig == nil {
+			// not a point of the curve: no key (the caller fails on the empty key)
+			return "", nil, nil, nil
+		}
 
 		x = xBig.Bytes()
 		y = yBig.Bytes()
